@@ -71,6 +71,30 @@ func (f *flakyReader) Read(p []byte) (int, error) {
 	return f.real.Read(p)
 }
 
+// validators never refuse: a panic inside one is noted and reported as its own event
+var validatorPanics []string
+
+func vGuard(name string, f func() bool) (ok bool) {
+	defer func() {
+		if r := recover(); r != nil {
+			if len(validatorPanics) < 20 {
+				validatorPanics = append(validatorPanics, name+": "+fmt.Sprint(r))
+			}
+			ok = false
+		}
+	}()
+	return f()
+}
+func vX(a [20]uint8) bool {
+	return vGuard("IsValidXMSSAddress", func() bool { return xmss.IsValidXMSSAddress(a) })
+}
+func vD(a [20]uint8) bool {
+	return vGuard("IsValidDilithiumAddress", func() bool { return dilithium.IsValidDilithiumAddress(a) })
+}
+func vL(a [39]uint8) bool {
+	return vGuard("IsValidLegacyXMSSAddress", func() bool { return xmss.IsValidLegacyXMSSAddress(a) })
+}
+
 func cps(s string) []int {
 	o := []int{}
 	for _, r := range s {
@@ -455,18 +479,27 @@ func address(r *rand.Rand, tier string, tr *trace.Buf) {
 		for b0 := 0; b0 < 256; b0++ {
 			e := adEvent{Ev: "desctable", B0: b0, B2: b2}
 			for b1 := 0; b1 < 256; b1++ {
-				d := xmss.NewQRLDescriptorFromBytes([]uint8{uint8(b0), uint8(b1), uint8(b2)})
-				e.Hf = append(e.Hf, int(d.GetHashFunction()))
-				e.Sig = append(e.Sig, int(d.GetSignatureType()))
-				e.Height = append(e.Height, int(d.GetHeight()))
-				e.Af = append(e.Af, int(d.GetAddrFormatType()))
-				gb := d.GetBytes()
-				e.Back = append(e.Back, ints(gb[:]))
+				// a parser / validator that panics on some value is recorded as the impossible value -1 / as
+				// "valid for both", which the specification rejects (parsing and validating never refuse)
+				hfv, sgv, htv, afv, back := -1, -1, -1, -1, []int{-1, -1, -1}
+				call(func() {
+					d := xmss.NewQRLDescriptorFromBytes([]uint8{uint8(b0), uint8(b1), uint8(b2)})
+					gb := d.GetBytes()
+					hfv, sgv, htv, afv, back = int(d.GetHashFunction()), int(d.GetSignatureType()), int(d.GetHeight()), int(d.GetAddrFormatType()), ints(gb[:])
+				})
+				e.Hf = append(e.Hf, hfv)
+				e.Sig = append(e.Sig, sgv)
+				e.Height = append(e.Height, htv)
+				e.Af = append(e.Af, afv)
+				e.Back = append(e.Back, back)
 				var a [20]uint8
 				r.Read(a[:])
 				a[0], a[1], a[2] = uint8(b0), uint8(b1), uint8(b2)
-				e.ValidX = append(e.ValidX, xmss.IsValidXMSSAddress(a))
-				e.ValidD = append(e.ValidD, dilithium.IsValidDilithiumAddress(a))
+				vx, vd := true, true
+				call(func() { vx = vX(a) })
+				call(func() { vd = vD(a) })
+				e.ValidX = append(e.ValidX, vx)
+				e.ValidD = append(e.ValidD, vd)
 			}
 			tr.Emit(e)
 		}
@@ -477,11 +510,16 @@ func address(r *rand.Rand, tier string, tr *trace.Buf) {
 			e := adEvent{Ev: "ctor", InHf: hf, InSig: sig}
 			for height := 0; height < 32; height++ {
 				for af := 0; af < 16; af++ {
-					d := xmss.NewQRLDescriptor(uint8(height), xmss.HashFunction(hf), common.SignatureType(sig), common.AddrFormatType(af))
-					gb := d.GetBytes()
-					e.Enc = append(e.Enc, ints(gb[:]))
-					d2 := xmss.NewQRLDescriptorFromBytes(gb[:])
-					e.Dec = append(e.Dec, []int{int(d2.GetHashFunction()), int(d2.GetSignatureType()), int(d2.GetHeight()), int(d2.GetAddrFormatType())})
+					enc, dec := []int{-1, -1, -1}, []int{-1, -1, -1, -1}
+					call(func() { // a constructor / parser that refuses a value shows up as the impossible -1
+						d := xmss.NewQRLDescriptor(uint8(height), xmss.HashFunction(hf), common.SignatureType(sig), common.AddrFormatType(af))
+						gb := d.GetBytes()
+						enc = ints(gb[:])
+						d2 := xmss.NewQRLDescriptorFromBytes(gb[:])
+						dec = []int{int(d2.GetHashFunction()), int(d2.GetSignatureType()), int(d2.GetHeight()), int(d2.GetAddrFormatType())}
+					})
+					e.Enc = append(e.Enc, enc)
+					e.Dec = append(e.Dec, dec)
 				}
 			}
 			tr.Emit(e)
@@ -496,27 +534,31 @@ func address(r *rand.Rand, tier string, tr *trace.Buf) {
 			g := d.GetBytes()
 			return []int{int(d.GetHashFunction()), int(d.GetSignatureType()), int(d.GetHeight()), int(d.GetAddrFormatType()), int(g[0]), int(g[1]), int(g[2])}
 		}
-		var ds []*xmss.QRLDescriptor
-		ds = append(ds, xmss.NewQRLDescriptorFromBytes(b), xmss.LegacyQRLDescriptorFromBytes(b),
-			xmss.NewQRLDescriptorFromExtendedPK(&epk), xmss.LegacyQRLDescriptorFromExtendedPK(&epk))
-		var before [][]int
-		for _, d := range ds {
-			before = append(before, snap(d))
-		}
-		for i := range b {
-			b[i] ^= 0xff
-		}
-		for i := range epk {
-			epk[i] ^= 0xff
-		}
 		same := true
-		for i, d := range ds {
-			a := snap(d)
-			for k := range a {
-				if a[k] != before[i][k] {
-					same = false
+		before := [][]int{}
+		if res := call(func() {
+			var ds []*xmss.QRLDescriptor
+			ds = append(ds, xmss.NewQRLDescriptorFromBytes(b), xmss.LegacyQRLDescriptorFromBytes(b),
+				xmss.NewQRLDescriptorFromExtendedPK(&epk), xmss.LegacyQRLDescriptorFromExtendedPK(&epk))
+			for _, d := range ds {
+				before = append(before, snap(d))
+			}
+			for i := range b {
+				b[i] ^= 0xff
+			}
+			for i := range epk {
+				epk[i] ^= 0xff
+			}
+			for i, d := range ds {
+				a := snap(d)
+				for k := range a {
+					if a[k] != before[i][k] {
+						same = false
+					}
 				}
 			}
+		}); res != "ok" {
+			same = false // a parser that panics on some bytes: reported through the same verdict path
 		}
 		tr.Emit(adEvent{Ev: "alias", Same: same, Dec: before})
 	}
@@ -527,8 +569,8 @@ func address(r *rand.Rand, tier string, tr *trace.Buf) {
 		e := adEvent{Ev: "xaddr", Pk: ints(pk[:]), Shake: ints(shake256(pk[:], 32)), Res: res, Class: class}
 		if res == "ok" {
 			e.Addr = ints(addr[:])
-			e.VX = xmss.IsValidXMSSAddress(addr)
-			e.VD = dilithium.IsValidDilithiumAddress(addr)
+			e.VX = vX(addr)
+			e.VD = vD(addr)
 		}
 		tr.Emit(e)
 		// legacy
@@ -540,7 +582,7 @@ func address(r *rand.Rand, tier string, tr *trace.Buf) {
 			s35 := sha256.Sum256(la[:35])
 			l.Addr = ints(la[:])
 			l.Sha35 = ints(s35[:])
-			l.VL = xmss.IsValidLegacyXMSSAddress(la)
+			l.VL = vL(la)
 		}
 		tr.Emit(l)
 	}
@@ -576,8 +618,8 @@ func address(r *rand.Rand, tier string, tr *trace.Buf) {
 					ea := adEvent{Ev: "xaddr", Pk: ints(opk[:]), Shake: ints(shake256(opk[:], 32)), Res: ra, Class: "object-getter"}
 					if ra == "ok" {
 						ea.Addr = ints(a[:])
-						ea.VX = xmss.IsValidXMSSAddress(a)
-						ea.VD = dilithium.IsValidDilithiumAddress(a)
+						ea.VX = vX(a)
+						ea.VD = vD(a)
 					}
 					tr.Emit(ea)
 					sp := sha256.Sum256(opk[:])
@@ -586,7 +628,7 @@ func address(r *rand.Rand, tier string, tr *trace.Buf) {
 						s35 := sha256.Sum256(la[:35])
 						el.Addr = ints(la[:])
 						el.Sha35 = ints(s35[:])
-						el.VL = xmss.IsValidLegacyXMSSAddress(la)
+						el.VL = vL(la)
 					}
 					tr.Emit(el)
 				}
@@ -631,7 +673,7 @@ func address(r *rand.Rand, tier string, tr *trace.Buf) {
 			}
 			dg := sha256.Sum256(pk[:])
 			tr.Emit(adEvent{Ev: "daddr", PkD: hex.EncodeToString(dg[:8]), Shake: ints(shake256(pk[:], 32)), Addr: ints(a[:]), Res: "ok",
-				VX: xmss.IsValidXMSSAddress(a), VD: dilithium.IsValidDilithiumAddress(a), Src: src})
+				VX: vX(a), VD: vD(a), Src: src})
 		}
 	}
 	for q := 0; q < nrand; q++ { // arbitrary Dilithium-sized public keys
@@ -640,12 +682,12 @@ func address(r *rand.Rand, tier string, tr *trace.Buf) {
 		a := dilithium.GetDilithiumAddressFromPK(pk)
 		dg := sha256.Sum256(pk[:])
 		tr.Emit(adEvent{Ev: "daddr", PkD: hex.EncodeToString(dg[:8]), Shake: ints(shake256(pk[:], 32)), Addr: ints(a[:]), Res: "ok",
-			VX: xmss.IsValidXMSSAddress(a), VD: dilithium.IsValidDilithiumAddress(a), Src: "random-pk"})
+			VX: vX(a), VD: vD(a), Src: "random-pk"})
 	}
 	// (4) legacy validity: valid addresses, each of their bit flips, random strings
 	emitL := func(a [39]uint8, class string) {
 		s35 := sha256.Sum256(a[:35])
-		tr.Emit(adEvent{Ev: "lvalid", Addr: ints(a[:]), Sha35: ints(s35[:]), VL: xmss.IsValidLegacyXMSSAddress(a), Class: class})
+		tr.Emit(adEvent{Ev: "lvalid", Addr: ints(a[:]), Sha35: ints(s35[:]), VL: vL(a), Class: class})
 	}
 	for i, pk := range realPKs {
 		if i >= 2 && tier == "quick" {
@@ -697,6 +739,9 @@ func address(r *rand.Rand, tier string, tr *trace.Buf) {
 			copy(a[35:], s[28:])
 		}
 		emitL(a, "random")
+	}
+	for _, n := range validatorPanics {
+		tr.Emit(adEvent{Ev: "vpanic", Res: n})
 	}
 }
 
@@ -784,6 +829,11 @@ func recoverDrive(r *rand.Rand, tier string, tr *trace.Buf) {
 					} else {
 						var seed [48]uint8
 						r.Read(seed[:])
+						if rep == 0 && hf < 2 { // extreme seeds: every 12-bit group 0xfff (the last word of the list) / 0x000
+							for i := range seed {
+								seed[i] = byte(0xff * (1 - hf))
+							}
+						}
 						x = xmss.NewXMSSFromSeed(seed, uint8(h), xmss.HashFunction(hf), common.SHA256_2X)
 					}
 					jump := uint32(1 + r.Intn((1<<uint(h))-1))
@@ -945,6 +995,11 @@ func recoverDrive(r *rand.Rand, tier string, tr *trace.Buf) {
 		} else {
 			var seed [48]uint8
 			r.Read(seed[:])
+			if q == 0 || q == 2 {
+				for i := range seed {
+					seed[i] = byte(0xff * (1 - q/2))
+				}
+			}
 			d, err = dilithium.NewDilithiumFromSeed(seed)
 		}
 		if err != nil {
